@@ -23,7 +23,6 @@ extern crate rustc_driver;
 
 use std::cell::RefCell;
 use std::cmp::min;
-use std::collections::HashMap;
 use std::fmt;
 use std::io::{self, Write};
 use std::mem;
@@ -197,7 +196,10 @@ pub struct FormatReport {
 impl FormatReport {
     fn new() -> FormatReport {
         FormatReport {
-            internal: Rc::new(RefCell::new((HashMap::new(), ReportedErrors::default()))),
+            internal: Rc::new(RefCell::new((
+                FormatErrorMap::new(),
+                ReportedErrors::default(),
+            ))),
             non_formatted_ranges: Vec::new(),
         }
     }
